@@ -296,5 +296,94 @@ actor_harness!(act_stop_during_flush, stop_during_flush);
 // @assume multi-stakker,no-unsafe-queue build
 actor_harness!(act_gating, gating);
 
+// ---- C20(c): with a logger installed, one Open at creation and one Close at termination, marker == cause ----
+static mut LREC_N: u8 = 0;
+static mut LREC: [(u64, u8, u8, u64); 4] = [(0, 0, 0, 0); 4]; // (id, level, marker, parent); marker: 0 none 1 failed 2 killed 3 dropped 4 lost 9 other
+struct LVis {
+    marker: u8,
+    parent: u64,
+}
+impl crate::LogVisitor for LVis {
+    fn kv_u64(&mut self, key: Option<&str>, val: u64) {
+        if key == Some("parent") {
+            self.parent = val;
+        }
+    }
+    fn kv_i64(&mut self, _key: Option<&str>, _val: i64) {}
+    fn kv_f64(&mut self, _key: Option<&str>, _val: f64) {}
+    fn kv_bool(&mut self, _key: Option<&str>, _val: bool) {}
+    fn kv_null(&mut self, key: Option<&str>) {
+        self.marker = match key {
+            Some("failed") => 1,
+            Some("killed") => 2,
+            Some("dropped") => 3,
+            Some("lost") => 4,
+            _ => 9,
+        };
+    }
+    fn kv_str(&mut self, _key: Option<&str>, _val: &str) {}
+    fn kv_fmt(&mut self, _key: Option<&str>, _val: &fmt::Arguments<'_>) {}
+    fn kv_map(&mut self, _key: Option<&str>) {}
+    fn kv_mapend(&mut self, _key: Option<&str>) {}
+    fn kv_arr(&mut self, _key: Option<&str>) {}
+    fn kv_arrend(&mut self, _key: Option<&str>) {}
+}
+fn lrecorder(_core: &mut Core, r: &crate::LogRecord<'_>) {
+    unsafe {
+        let i = LREC_N as usize;
+        if i < 4 {
+            let mut v = LVis { marker: 0, parent: 0 };
+            (r.kvscan)(&mut v);
+            LREC[i] = (r.id, r.level as u8, v.marker, v.parent);
+        }
+        LREC_N += 1;
+    }
+}
+fn log_open_close() {
+    obs_reset();
+    unsafe {
+        LREC_N = 0;
+        LREC = [(0, 0, 0, 0); 4];
+    }
+    let mut s = Stakker::new(base_instant());
+    s.set_logger(crate::LogFilter::all(&[crate::LogLevel::Open]), |c: &mut Core, r: &crate::LogRecord<'_>| lrecorder(c, r));
+    // some unrelated span first, so that ids are not trivially 1
+    let other = s.log_span_open("x", 0, |_| {});
+    let parent: u64 = kani::any();
+    let a: Actor<Val> = Actor { rc: ActorRc::new(&mut s, Some(notifier()), parent) };
+    let id = a.id();
+    unsafe {
+        assert!(LREC_N == 2, "C20: creating an actor must emit exactly one Open record");
+        assert!(LREC[1].0 == id && LREC[1].1 == crate::LogLevel::Open as u8, "C20: Open record must carry the actor's id");
+        assert!(id != 0 && id != other, "C20: actor LogID must be fresh and non-zero");
+        assert!(LREC[1].3 == parent, "C20: Open record must carry the creator's id as parent");
+    }
+    if kani::any() {
+        a.to_ready(&mut s, Val(1));
+    }
+    let (c1, k1, _p1) = any_cause();
+    let (c2, _k2, _p2) = any_cause();
+    a.terminate(&mut s, c1);
+    a.terminate(&mut s, c2);
+    unsafe {
+        assert!(LREC_N == 3, "C20: termination must emit exactly one Close record");
+        assert!(LREC[2].0 == id && LREC[2].1 == crate::LogLevel::Close as u8, "C20: Close record must carry the actor's id");
+        let want = match k1 { 1 => 0, 2 => 1, 3 => 2, _ => 3 };
+        assert!(LREC[2].2 == want, "C20: Close marker must match the StopCause delivered to the notifier");
+    }
+    assert!(obs().notified == 1 && obs().cause == k1, "C03: notifier once with the first cause");
+    kani::cover!(k1 == 4, "dropped");
+    kani::cover!(k1 == 1, "stopped");
+    std::mem::forget(a);
+    std::mem::forget(s);
+}
+// @verif prop=C20,C03 tier=quick features=multi-stakker,no-unsafe-queue,logger timeout=500 mem=24 unwind=10 unwindset=drop_glue::<\[.*Stakker\)>\]>\.0$:4
+// @enc ActorRc::new (log_span_open) Actor::terminate Actor::log_termination Core::{log_span_open,log_span_close,log} Stakker::set_logger
+// @sym parent id; whether the actor became Ready; two termination requests (cause x payload)
+// @bound one actor: create, optional to_ready, terminate twice
+// @stub std::hash::RandomState::new -> fixed keys
+// @assume multi-stakker,no-unsafe-queue,logger build
+actor_harness!(act_log_open_close, log_open_close);
+
 #[cfg(uazu_replay_actor)]
 include!(env!("UAZU_STAKKER_REPLAY_FILE"));
